@@ -82,4 +82,34 @@ package sdl
 //@   loop 6 modifies newobjects
 //@   loop 6 invariant 0 <= iter && 0 <= len(result) && len(result) <= cap(result) && fresh(result)
 
-//@ property C18 := v2DeploymentSvcNames#*, v2DeploymentPlacementNames#*, (*v2).Manifest#*
+// the deployment groups: every resource record carries the replica count and the price declared for its
+// service/placement, and the kind of each endpoint is decided from the expose exactly as the manifest side sees it
+// (container port, `as` port, protocol, global flag) - otherwise groups and manifest of one document disagree
+//@ import providerUtil "github.com/ovrclk/akash/provider/cluster/util"
+//@ func (*v2).DeploymentGroups$1
+//@   trusted
+//@   pure
+//@ func (*v2).DeploymentGroups
+//@   requires sdl != nil
+//@   modifies nothing
+//@   oncall util.ShouldBeIngress 1 assert callarg0.Port == expose.Port && callarg0.ExternalPort == expose.As && callarg0.Proto == proto && callarg0.Global == to.Global
+//@   loop 1 modifies newobjects
+//@   loop 1 invariant 0 <= iter && fresh(groups) && (forall k: str {groups[k]} :: has(groups, k) ==> groups[k] != nil && fresh(groups[k]) && (arr(groups[k].Resources) == nil || fresh(groups[k].Resources)) && 0 <= len(groups[k].Resources) && len(groups[k].Resources) <= cap(groups[k].Resources))
+//@   loop 2 modifies newobjects
+//@   loop 2 invariant 0 <= iter && fresh(groups) && (forall k: str {groups[k]} :: has(groups, k) ==> groups[k] != nil && fresh(groups[k]) && (arr(groups[k].Resources) == nil || fresh(groups[k].Resources)) && 0 <= len(groups[k].Resources) && len(groups[k].Resources) <= cap(groups[k].Resources))
+//@   loop 3 modifies newobjects
+//@   loop 3 invariant 0 <= iter && fresh(groups) && (forall k: str {groups[k]} :: has(groups, k) ==> groups[k] != nil && fresh(groups[k]) && (arr(groups[k].Resources) == nil || fresh(groups[k].Resources)) && 0 <= len(groups[k].Resources) && len(groups[k].Resources) <= cap(groups[k].Resources)) && group != nil && fresh(group) && (arr(group.Resources) == nil || fresh(group.Resources)) && 0 <= len(group.Resources) && len(group.Resources) <= cap(group.Resources)
+//@   loop 3 invariant [count] resources.Count == svcdepl.Count
+//@   loop 3 invariant [price] resources.Price == price.Value
+//@   loop 3 invariant 0 <= len(endpoints) && len(endpoints) <= cap(endpoints) && fresh(endpoints)
+//@   loop 4 modifies newobjects
+//@   loop 4 invariant 0 <= iter && fresh(groups) && (forall k: str {groups[k]} :: has(groups, k) ==> groups[k] != nil && fresh(groups[k]) && (arr(groups[k].Resources) == nil || fresh(groups[k].Resources)) && 0 <= len(groups[k].Resources) && len(groups[k].Resources) <= cap(groups[k].Resources)) && group != nil && fresh(group) && (arr(group.Resources) == nil || fresh(group.Resources)) && 0 <= len(group.Resources) && len(group.Resources) <= cap(group.Resources)
+//@   loop 4 invariant [count] resources.Count == svcdepl.Count
+//@   loop 4 invariant [price] resources.Price == price.Value
+//@   loop 4 invariant 0 <= len(endpoints) && len(endpoints) <= cap(endpoints) && fresh(endpoints)
+//@   loop 5 modifies newobjects
+//@   loop 5 invariant 0 <= len(names) && len(names) <= cap(names) && fresh(names)
+//@   loop 6 modifies newobjects
+//@   loop 6 invariant 0 <= iter && 0 <= len(result) && len(result) <= cap(result) && fresh(result)
+
+//@ property C18 := v2DeploymentSvcNames#*, v2DeploymentPlacementNames#*, (*v2).Manifest#*, (*v2).DeploymentGroups#*
